@@ -193,6 +193,10 @@ pub fn main(args: &[String]) {
                     let n_mv = ids.values().filter(|id| matches!(lf.block(**id).ty, InstrSeqType::MultiValue(_))).count();
                     let n_st = lg.iter().filter(|e| e.starts_with("ESeqType")).count();
                     if n_st != n_mv { bad.push(format!("{} sequence-type callbacks for {} sequences with a function type", n_st, n_mv)); }
+                    // instruction-sequence operands: the bodies of block / loop / if-else, once each (branch targets are marked skip_visit in the IR: they are not operands to report)
+                    let n_seq_operands: usize = ids.values().map(|id| lf.block(*id).instrs.iter().map(|(i, _)| match i { ir::Instr::Block(_) | ir::Instr::Loop(_) => 1, ir::Instr::IfElse(_) => 2, _ => 0 }).sum::<usize>()).sum();
+                    let n_sr = lg.iter().filter(|e| e.starts_with("ESeqRef")).count();
+                    if n_sr != n_seq_operands { bad.push(format!("{} instruction-sequence operand callbacks for {} such operands", n_sr, n_seq_operands)); }
                     if !bad.is_empty() {
                         let class = if n_ref != expected_refs && bad.len() == 1 { format!("{}:entity-operands-not-visited-exactly-once", which) } else { format!("{}:traversal-broken", which) };
                         viol.push(Json::obj(vec![("class", Json::s(class)), ("props", Json::s("C16")), ("what", Json::s(format!("{} on function {}: {}", which, fidx, bad.join("; ")))),
